@@ -1,15 +1,17 @@
 #!/bin/bash
-# applies each seeded change to /repo's working tree, runs the property's quick check, records the verdict, undoes the change
+# For each seeded change <Cnn-mk>: a scratch worktree of /repo's HEAD gets the change, the property's quick check runs
+# against that copy (VERIF_REPO), the verdict is printed, the worktree is removed.  /repo itself and /verif/evidence are not touched.
 cd /verif
 for x in "$@"; do
-  P=${x%%-*}; K=${x##*-}
-  PATCH=/tmp/mut/$P/$K/patch.diff; [ -f /tmp/mut/$P/$K/patch.rebased.diff ] && PATCH=/tmp/mut/$P/$K/patch.rebased.diff
-  [ -f /verif/seeded/$P-$K/patch.diff ] && PATCH=/verif/seeded/$P-$K/patch.diff
-  git -C /repo checkout -- . ; 
-  if ! git -C /repo apply $PATCH 2>/dev/null; then echo "RESULT $x patch-does-not-apply"; continue; fi
-  OUT=$(timeout 1500 ./check $P --tier quick 2>&1); RC=$?
-  NV=$(echo "$OUT" | grep -c "^VIOLATION"); 
+  P=${x%%-*}
+  PATCH=/verif/seeded/$x/patch.diff
+  [ -f $PATCH ] || { echo "RESULT $x no-such-seed"; continue; }
+  WT=$(mktemp -d /tmp/sweep-XXXX)
+  git -C /repo worktree add --detach $WT HEAD >/dev/null 2>&1
+  if ! git -C $WT apply $PATCH 2>/dev/null; then echo "RESULT $x patch-does-not-apply"; git -C /repo worktree remove --force $WT; continue; fi
+  OUT=$(VERIF_REPO=$WT VERIF_EVIDENCE_DIR=/tmp/ev_sweep timeout 1800 ./check $P --tier quick 2>&1); RC=$?
+  NV=$(echo "$OUT" | grep -c "^VIOLATION")
   echo "RESULT $x rc=$RC violations=$NV $(echo "$OUT" | tail -1)"
   echo "$OUT" | grep "violated=[1-9]" | head -4
-  git -C /repo checkout -- .
+  git -C /repo worktree remove --force $WT >/dev/null 2>&1; rm -rf $WT
 done
